@@ -346,6 +346,13 @@ def _word(alphabet, max_size):
 def fresh_names(draw, count, alphabet=NAME_ALPHABET, max_size=8, reserved=("NoName",)):
     names = draw(st.lists(_word(alphabet, max_size).filter(lambda s: s not in reserved),
                           min_size=count, max_size=count, unique=True))
+    # names that differ only in letter case are distinct names: make such pairs likely
+    if count >= 2 and chance(draw, 1, 3):
+        i = draw(st.integers(0, count - 1))
+        j = draw(st.integers(0, count - 1))
+        variant = names[j].swapcase()
+        if i != j and variant not in names and variant not in reserved:
+            names[i] = variant
     return names
 
 
